@@ -1,13 +1,119 @@
 (* Properties/C17.v — C17: placement puts each partition's replicas on distinct, spread-out nodes.
-   This file contains only the property theorems (closed by [exact]) and non-vacuity examples. *)
-From ZV Require Import Common.Bytes Part.Model Place.Consts Place.Model Place.Proofs.
+   This file contains only the property theorems (closed by [exact]) and non-vacuity examples.
+
+   Vocabulary (coq/Place/Model.v, Proofs.v, ProofsV2.v):
+     rebalance ver ns p r olds nodes   model of getRebalancedNamespacePartitions; nodes = the node map as a
+                                       list of (id, dc tag) in any order; result Ok layout | Refuse | Panic
+     valid_layout live p r l           l has p lists, each of length r, duplicate-free, members of live
+     olds_ok p r olds                  the previous layout has <= p lists, each duplicate-free and <= r long
+                                       (what node loss / addition produces from a valid layout)
+     is_v2 ver                         the balance-version string selects the incremental algorithm
+     even_topology nodes k             every data centre that occurs has exactly k nodes
+     dcs_of nodes / node_dc nodes x    the sorted data-centre names / the data centre of node x  *)
+From ZV Require Import Common.Bytes Part.Model Place.Consts Place.Model Place.Proofs Place.ProofsV2.
 From Coq Require Import Permutation.
 Open Scope nat_scope.
 
-(* (V1-a) ring algorithm on a duplicate-free ring with at least r nodes: p lists, each with exactly r
-   distinct members of the ring; never a panic *)
-Theorem C17_v1_valid : forall h p r (ring : list (list N)),
-  NoDup ring -> r <= length ring -> ring <> [] ->
-  exists l, fill_v1 h p r ring = Ok l /\ valid_layout ring p r l.
-Proof. exact fill_v1_valid. Qed.
-Print Assumptions C17_v1_valid.
+(* (1) refusal exactly when there are fewer nodes than replicas (never a degraded layout, never a panic) *)
+Theorem C17_refuse_iff : forall ver ns p r olds nodes,
+  NoDup (map fst nodes) -> ~ In [] (map fst nodes) -> nodes <> [] -> olds_ok (N.to_nat p) (N.to_nat r) olds ->
+  (rebalance ver ns p r olds nodes = Refuse <-> (N.of_nat (length nodes) < r)%N).
+Proof. exact rebalance_refuse_iff'. Qed.
+Print Assumptions C17_refuse_iff.
+
+(* (2) both algorithms, every node set with >= r nodes, every previous layout reachable by node
+   loss/addition: a layout is produced; every partition has exactly r distinct live replicas *)
+Theorem C17_layout_valid : forall ver ns p r olds nodes,
+  NoDup (map fst nodes) -> ~ In [] (map fst nodes) -> nodes <> [] ->
+  (r <= N.of_nat (length nodes))%N -> olds_ok (N.to_nat p) (N.to_nat r) olds ->
+  exists l, rebalance ver ns p r olds nodes = Ok l /\ valid_layout (map fst nodes) (N.to_nat p) (N.to_nat r) l.
+Proof. exact rebalance_valid. Qed.
+Print Assumptions C17_layout_valid.
+
+(* (2') the V2 invariant behind (2): load maps consistent with the layout, lists valid — established by
+   the fill phase and preserved by every moveIfUnbalanced step, which never panics *)
+Theorem C17_v2_fill_establishes_invariant : forall h p r olds (ring : list (list N)),
+  NoDup ring -> ~ In [] ring -> r <= length ring ->
+  length olds <= p -> Forall (fun o => length o <= r /\ NoDup o) olds ->
+  exists ls parts, v2_fill_phase h p r olds ring = Ok (ls, parts) /\ names ls = ring /\
+    length parts = p /\ Forall (list_ok ring r) parts /\ cons ls (part_at parts).
+Proof. exact v2_fill_phase_ok. Qed.
+Print Assumptions C17_v2_fill_establishes_invariant.
+
+Theorem C17_v2_move_preserves_invariant : forall (ring : list (list N)), NoDup ring -> ring <> [] ->
+  forall p r ls parts, Jinv ring p r ls parts ->
+  exists ls' parts' b, move_step ls parts = Ok (ls', parts', b) /\ Jinv ring p r ls' parts'.
+Proof. exact move_step_inv. Qed.
+Print Assumptions C17_v2_move_preserves_invariant.
+
+(* (3) determinism: the result is a function of the node *set* — the order in which the Go map
+   delivers the nodes does not matter (and the model is a function, so equal inputs give equal layouts) *)
+Theorem C17_order_independent : forall ver ns p r olds nodes nodes',
+  Permutation nodes nodes' -> rebalance ver ns p r olds nodes = rebalance ver ns p r olds nodes'.
+Proof. exact rebalance_perm_invariant. Qed.
+Print Assumptions C17_order_independent.
+
+(* (4) ring algorithm, nodes evenly spread over at least r data centres: no two replicas of a
+   partition share a data centre *)
+Theorem C17_v1_dc_spread : forall ver ns p r olds nodes k l,
+  is_v2 ver = false -> NoDup (map fst nodes) -> nodes <> [] ->
+  even_topology nodes k -> N.to_nat r <= length (dcs_of nodes) ->
+  rebalance ver ns p r olds nodes = Ok l ->
+  Forall (fun nl => NoDup (map (node_dc nodes) nl)) l.
+Proof. exact rebalance_v1_dc_spread. Qed.
+Print Assumptions C17_v1_dc_spread.
+
+(* (4') the interleave lemma behind (4): on an even topology with d data centres ring slot s holds a
+   node of data centre number s mod d (wrap-around included: the ring length is a multiple of d) *)
+Theorem C17_ring_slot_dc : forall nodes k,
+  NoDup (map fst nodes) -> even_topology nodes k -> k <> 0 ->
+  let ring := ring_of_lists (node_name_list nodes) in
+  let d := length (dcs_of nodes) in
+  length ring = k * d /\
+  forall s, s < length ring -> pos_in (node_dc nodes (nth s ring [])) (dcs_of nodes) = s mod d.
+Proof. exact even_ring_class. Qed.
+Print Assumptions C17_ring_slot_dc.
+
+(* (5) ring algorithm: when the partition count is a multiple m * n of the node count every node is
+   the preferred leader (first list member) of exactly m partitions *)
+Theorem C17_v1_leader_balance : forall ver ns m r olds nodes l x,
+  is_v2 ver = false -> NoDup (map fst nodes) -> nodes <> [] ->
+  (0 < r)%N -> (r <= N.of_nat (length nodes))%N ->
+  rebalance ver ns (N.of_nat (m * length nodes)) r olds nodes = Ok l ->
+  In x (map fst nodes) ->
+  count_occ name_dec (leaders l) x = m.
+Proof. exact rebalance_v1_leader_balance. Qed.
+Print Assumptions C17_v1_leader_balance.
+
+(* ---------- non-vacuity ---------- *)
+Open Scope N_scope.
+Definition ex_nodes : list (list N * tag) :=
+  [([97;49], TagStr [100;49]); ([98;49], TagStr [100;50]); ([97;50], TagStr [100;49]);
+   ([98;50], TagStr [100;50]); ([99;49], TagStr [100;51]); ([99;50], TagStr [100;51])].
+(* 6 nodes a1 a2 @d1, b1 b2 @d2, c1 c2 @d3 : ring a1 b1 c1 a2 b2 c2 *)
+Example C17_ex_ring : ring_of_lists (node_name_list ex_nodes) = [[97;49];[98;49];[99;49];[97;50];[98;50];[99;50]].
+Proof. vm_compute. reflexivity. Qed.
+Example C17_ex_even : even_topology ex_nodes 2%nat /\ length (dcs_of ex_nodes) = 3%nat /\ NoDup (map fst ex_nodes).
+Proof.
+  split; [|split; [vm_compute; reflexivity|]].
+  - intros dc H. vm_compute in H. destruct H as [<-|[<-|[<-|[]]]]; vm_compute; reflexivity.
+  - vm_compute. repeat (constructor; [intros H; simpl in H; repeat (destruct H as [H|H]; [discriminate|]); exact H|]). constructor.
+Qed.
+(* V2 after losing node b1: partition lists keep their surviving members, stay valid *)
+Example C17_ex_v2_chain :
+  exists l0 l1,
+    rebalance [118;50] [110;115] 4 3 [] ex_nodes = Ok l0 /\
+    rebalance [118;50] [110;115] 4 3 l0 (filter (fun nt => negb (bytes_eqb (fst nt) [98;49])) ex_nodes) = Ok l1 /\
+    olds_ok 4%nat 3%nat l0 /\ l0 <> l1.
+Proof.
+  eexists. eexists. split; [vm_compute; reflexivity|]. split; [vm_compute; reflexivity|].
+  split; [|discriminate]. split; [simpl; lia|].
+  repeat (constructor; [split; [simpl; lia|repeat (constructor; [intros H; simpl in H; repeat (destruct H as [H|H]; [discriminate|]); exact H|]); constructor]|]). constructor.
+Qed.
+(* refusal is reachable, and so is the Panic outcome outside the hypotheses (replication factor lowered
+   below the length of an old list whose leader died: DESIGN.md L1) *)
+Example C17_ex_refuse : rebalance [118;50] [110;115] 4 7 [] ex_nodes = Refuse.
+Proof. vm_compute. reflexivity. Qed.
+Example C17_ex_panic_outside_hypotheses :
+  rebalance [118;50] [110;115] 1 2 [[[120];[98;49];[98;50]]] [([98;49], TagAbsent); ([98;50], TagAbsent)] = Panic.
+Proof. vm_compute. reflexivity. Qed.
